@@ -114,6 +114,27 @@ def streams(tier, rng):
     for lit in ('1 E5', '1E 5', '1.5 e+2', '0.1', '1e23', '9007199254740993', '8.5e-46', '1.7976931348623159e308', '4.9e-324', '2.47e-324'):
         add(lit, 'PD:1', 'dec64', ' ' in lit)
         add(lit, 'PF:1', 'dec32', ' ' in lit)
+    # literals just beside the midpoint of two neighbouring floats / doubles (double rounding shows only here)
+    import struct as _st
+    from decimal import Decimal, getcontext
+    getcontext().prec = 60
+    for _ in range(400 if tier == 'quick' else 8000):
+        fb = rng.choice([0x4b800000, 0x3f800000, 0x3f800001, 0x7f7ffffe, 0x00800000]) if rng.random() < 0.2 else (rng.getrandbits(31) % 0x7f7fffff)
+        a = _st.unpack('<f', _st.pack('<I', fb))[0]
+        b = _st.unpack('<f', _st.pack('<I', fb + 1))[0]
+        if a == 0 or b != b or b == float('inf'):
+            continue
+        mid = (Decimal(a) + Decimal(b)) / 2
+        for delta in (Decimal(0), Decimal(1), Decimal(-1)):
+            digs = rng.choice([18, 20, 24, 25])
+            q = mid.scaleb(-mid.adjusted())            # d.ddd...
+            q = q.quantize(Decimal(1).scaleb(-(digs - 1))) + delta * Decimal(1).scaleb(-(digs - 1))
+            lit = '%sE%d' % (format(q, 'f'), mid.adjusted())
+            if len(lit.split('E')[0].replace('.', '')) > 26:
+                continue
+            add(lit, 'PF:1', 'dec32', False)
+            if rng.random() < 0.3:
+                add(lit, 'PD:1', 'dec64', False)
     # nondecimal and decimal integers at width boundaries
     for w, rd_s, rd_u in ((32, 'PI32', 'PU32'), (64, 'PI64', 'PU64')):
         vals = [0, 1, 7, 8, 255, 2**(w - 1) - 1, 2**(w - 1), 2**w - 1] + [rng.getrandbits(w) >> rng.randrange(w) for _ in range(40 if tier == 'quick' else 600)]
